@@ -1,4 +1,5 @@
 import TarsModel.Proofs.ClientConnAdmits
+import TarsModel.Proofs.AdapterPush
 
 /-!
 # C11 — Calls keep succeeding across server-initiated connection closes
@@ -367,5 +368,60 @@ theorem C11_histories (cap limit : Nat) (idle : Bool) (h : List Event) (q f n : 
   obtain ⟨s', t⟩ := admits_sound ha
   obtain ⟨s, t1, hc, hn, _, _, _⟩ := trace_probe_last t
   exact ⟨s, t1, hn, (reachable_inv_repaired (trace_reachable t1 (reachable_start idle))).closedKnown, hc⟩
+
+/-! ## The close notification (`AdapterProxy.Recv` → `onPush`, `Model/AdapterPush.lean`)
+
+The server announces that it is closing (`"_reconnect_"` push, request id 0), stops reading the
+connection and closes it only later. "A request is never written to a connection already known to
+be dead" then means: once the client has processed the notification of a `TarsClient`, no later
+`AdapterProxy.Send` hands a request to that `TarsClient` — it goes to a fresh one, whose first
+`Send` dials a new connection. -/
+
+/-- For `onPush` as it stands (the `reconnectMsg` test comes first), for every schedule of server
+pushes, notifications, `Recv` goroutines (in any order), `SetPushCallback` and sends, with or
+without a push callback: every request is handed to a `TarsClient` whose close notification had
+not been processed when `Send` was entered, and every `TarsClient` whose notification has been
+processed is older than the current one. -/
+theorem C11_after_notification_fresh_conn (acts : List Tars.AdapterPush.Action)
+    (s : Tars.AdapterPush.State) (hrun : Tars.AdapterPush.run .reconnectFirst acts = some s) :
+    (∀ x ∈ s.sends, x.gen ∉ x.noticed) ∧ (∀ g ∈ s.noticed, g < s.gen) := by
+  have hi := Tars.AdapterPush.inv_runFrom acts _ s Tars.AdapterPush.inv_init hrun
+  exact ⟨hi.sendsFresh, hi.noticedOld⟩
+
+/-- non-vacuity: two calls, the notification, its `Recv`, a third call — no push callback: the third
+request goes to generation 1, the old client is handed to `GraceClose` -/
+example : ∃ s, Tars.AdapterPush.run .reconnectFirst
+    [.send 1, .send 2, .pNotify 0, .recv 0, .send 3] = some s ∧
+    s.sends = [⟨1, 0, []⟩, ⟨2, 0, []⟩, ⟨3, 1, [0]⟩] ∧ s.graceClosing = [0] ∧ s.hasCallback = false :=
+  ⟨_, rfl, rfl, rfl, rfl⟩
+
+/-- The fresh `TarsClient` made by `onPush` is a transport LTS in its initial state: its first
+`Send` finds the flag "closed" and dials a new connection (both transport variants). -/
+theorem C11_fresh_client_dials (v : Variant) (cap id : Nat) :
+    ∃ s, run v cap [.callBegin id, .callReconnect id] = some s ∧ s.conns = [{}] ∧
+      s.isClosed = false := by
+  refine ⟨_, by simp [run, runFrom, step, init, findCall, setCall, knownList]; rfl, rfl, rfl⟩
+
+/-- With the `pushCallback == nil → return` guard in front of the `reconnectMsg` test, a client that
+never registered a push callback processes the notification and keeps its `TarsClient`: the next
+request is handed to the client whose connection the server has announced as closing and no longer
+reads. With a callback registered the same schedule switches to a fresh client. -/
+theorem C11_notification_counterexample_guard_first :
+    (∃ s, Tars.AdapterPush.run .guardFirst [.send 1, .pNotify 0, .recv 0, .send 2] = some s ∧
+      s.sends = [⟨1, 0, []⟩, ⟨2, 0, [0]⟩] ∧ s.stopped = [0] ∧ s.gen = 0 ∧
+      ¬ (∀ x ∈ s.sends, x.gen ∉ x.noticed)) ∧
+    (∃ s, Tars.AdapterPush.run .guardFirst [.setCallback, .send 1, .pNotify 0, .recv 0, .send 2] = some s ∧
+      s.sends = [⟨1, 0, []⟩, ⟨2, 1, [0]⟩]) := by
+  refine ⟨⟨_, rfl, rfl, rfl, rfl, fun h => ?_⟩, ⟨_, rfl, rfl⟩⟩
+  exact h ⟨2, 0, [0]⟩ (by decide) (by decide)
+
+/-- The extractor records the order of the two tests in `onPush`
+(`Consts.adapterOnPushReconnectFirst`); when the `reconnectMsg` test comes first the theorem is
+about the function of the current tree. -/
+theorem C11_notification_current_tree (h : Tars.AdapterPush.treeVariant = .reconnectFirst)
+    (acts : List Tars.AdapterPush.Action) (s : Tars.AdapterPush.State)
+    (hrun : Tars.AdapterPush.run Tars.AdapterPush.treeVariant acts = some s) :
+    ∀ x ∈ s.sends, x.gen ∉ x.noticed :=
+  (C11_after_notification_fresh_conn acts s (h ▸ hrun)).1
 
 end Tars.ClientConn
